@@ -3,7 +3,7 @@ Hdl21 Parameters and Param-Classes
 """
 
 # Std-Lib Imports
-import dataclasses, inspect, json, hashlib
+import dataclasses, inspect, json, hashlib, re
 from typing import Optional, Any, Type, TypeVar, Dict
 
 # PyPi Imports
@@ -224,11 +224,19 @@ def _unique_name(params: Any) -> str:
     if all_scalar:
         # Format: `pname1=pval1 pname2=pval2 pname3=pval3`
         keys = params.__params__.keys()
-        name = " ".join(f"{k}={str(getattr(params, k))}" for k in keys)
+        values = [str(getattr(params, k)) for k in keys]
+        name = " ".join(f"{k}={v}" for k, v in zip(keys, values))
 
+        # The readable form is only used when every value is a plain alphanumeric word,
+        # or a number written without "." or "+", such as `-3` or `1e-11`.
+        # Values including the separators (spaces, "=") make it ambiguous, e.g. `(a="x b=y", b="z")` and `(a="x", b="y b=z")`,
+        # and other punctuation is either treated as a path separator (".") or merged into "_"
+        # by netlist formats, making different names collide there.
         # These names must also be limited in length, for sake of our favorite output formats.
-        # If the generated name is too long, use the hashing method below instead
-        if len(name) < 128:  # Probably(?) a reasonable length limit
+        # In all of those cases, use the hashing method below instead.
+        word = re.compile(r"[A-Za-z0-9]+|-?[0-9]+(e-?[0-9]+)?")
+        readable = all(word.fullmatch(v) for v in values)
+        if readable and len(name) < 128:  # Probably(?) a reasonable length limit
             return name
 
     # Non-scalar cases generally include nested `@paramclasses` or sequences,
